@@ -163,6 +163,39 @@ theorem C10_oversize_manifest_outcome :
     (recv (fun _ => true) (send Sock.empty l).1).1.bytes.length = encLen l - Consts.scmMaxBytesOut := by
   decide +kernel
 
+/-- one hand-over over a socket: what the receiver ends up with -/
+def handOver (parseOk : Addr → Bool) (s : Sock) (l : Listeners) : Option (Listeners × Sock) :=
+  match recv parseOk (send s l).1 with
+  | (s', .recvOk l') => some (l', s')
+  | _ => none
+
+/-- a relay chain (old worker → main process → new worker → …): every hop sends
+    what it received -/
+def relayChain (parseOk : Addr → Bool) : Nat → Sock → Listeners → Option (Listeners × Sock)
+  | 0, s, l => some (l, s)
+  | n + 1, s, l =>
+    match handOver parseOk s l with
+    | some (l', s') => relayChain parseOk n s' l'
+    | none => none
+
+/-- **Relay chains.** However many times a listener set (≤ MAX_FDS_OUT
+    listeners, socket-address texts) is received and sent on, over the same
+    socket pair, the last receiver holds exactly the original set — every
+    address still paired with its own descriptor — and the socket is left clean. -/
+theorem C10_relay_chain (parseOk : Addr → Bool) (n : Nat) (l : Listeners)
+    (hc : l.count ≤ Consts.scmMaxFdsOut) (ha : ∀ a ∈ l.addrs, a.length ≤ Consts.scmMaxAddressLen)
+    (hp : ∀ a ∈ l.addrs, parseOk a = true) :
+    relayChain parseOk n Sock.empty l = some (l, Sock.empty) := by
+  induction n with
+  | zero => rfl
+  | succ n ih =>
+    have h := C10_handover_total parseOk l hc ha hp
+    simp only [relayChain, handOver, h]
+    exact ih
+
+example : relayChain (fun _ => true) 3 Sock.empty { http := [([49, 50, 55], 7)], udp := [([49], 4)] }
+    = some ({ http := [([49, 50, 55], 7)], udp := [([49], 4)] }, Sock.empty) := by decide
+
 /-! ### soft stop -/
 namespace SoftStop
 
@@ -192,6 +225,18 @@ theorem inv_step (w : W) (op : Op) (h : Inv w) : Inv (step w op).1 := by
     simp only [step]; split
     · exact h
     · exact ⟨fun e => h.live e, fun e => h.done e⟩
+  | addListener =>
+    simp only [step]; split
+    · exact h
+    · exact ⟨fun e => h.live e, fun e => h.done e⟩
+  | removeListener =>
+    simp only [step]; split
+    · exact h
+    · exact ⟨fun e => h.live e, fun e => h.done e⟩
+  | returnListeners =>
+    simp only [step]; split
+    · exact h
+    · exact ⟨fun e => h.live e, fun e => h.done e⟩
 
 theorem inv_run (w : W) (ops : List Op) (h : Inv w) : Inv (run w ops) := by
   induction ops generalizing w with
@@ -199,8 +244,9 @@ theorem inv_run (w : W) (ops : List Op) (h : Inv w) : Inv (run w ops) := by
   | cons o os ih => exact ih _ (inv_step w o h)
 
 /-- **Exactly one acknowledgement.** Whatever the sequence of SoftStop requests,
-    event-loop ticks and connection attempts, a worker writes at most one final
-    Ok, and it has written exactly one iff it has exited. -/
+    event-loop ticks, connection attempts, listener additions / removals and
+    `ReturnListenSockets`, a worker writes at most one final Ok, and it has
+    written exactly one iff it has exited. -/
 theorem C10_softstop_acks_once (base slab : Nat) (ops : List Op) :
     let w := run { base := base, slab := slab } ops
     w.acks.length ≤ 1 ∧ (w.exited = true ↔ w.acks.length = 1) := by
@@ -210,13 +256,92 @@ theorem C10_softstop_acks_once (base slab : Nat) (ops : List Op) :
   | false => have := h.live he; simp [w] at this ⊢; simp [this]
   | true => have := (h.done he).1; simp [w] at this ⊢; omega
 
+/-- the slab accounting: `slab = base_sessions_count + client sessions`, and
+    every listener entry is counted in the base -/
+structure Acc (w : W) : Prop where
+  slab : w.slab = w.base + w.sessions
+  lis : w.listeners ≤ w.base
+
+theorem acc_step (w : W) (op : Op) (h : Acc w) : Acc (step w op).1 := by
+  obtain ⟨h1, h2⟩ := h
+  cases op with
+  | softStop id => simp only [step]; split <;> exact ⟨h1, h2⟩
+  | tick closed =>
+    simp only [step]; split
+    · exact ⟨h1, h2⟩
+    · split
+      · exact ⟨by simp only []; omega, h2⟩
+      · split
+        · exact ⟨by simp only []; omega, h2⟩
+        · exact ⟨by simp only []; omega, h2⟩
+  | connect => simp only [step]; split; exact ⟨h1, h2⟩; exact ⟨by simp only []; omega, h2⟩
+  | addListener => simp only [step]; split; exact ⟨h1, h2⟩; exact ⟨by simp only []; omega, by simp only []; omega⟩
+  | removeListener =>
+    simp only [step]; split
+    · exact ⟨h1, h2⟩
+    · next hc =>
+      have : w.listeners ≠ 0 := by intro e; exact hc (Or.inr e)
+      exact ⟨by simp only []; omega, by simp only []; omega⟩
+  | returnListeners => simp only [step]; split <;> exact ⟨h1, h2⟩
+
+/-- **The accounting survives every history**, hand-over included: from a fresh
+    worker, after any sequence of operations (listeners added, removed, handed
+    back with `ReturnListenSockets`, connections, ticks, stops) the slab still is
+    the base plus the client sessions. -/
+theorem C10_accounting_invariant (b : Nat) (ops : List Op) : Acc (run (W.fresh b) ops) := by
+  have : ∀ (w : W), Acc w → Acc (run w ops) := by
+    induction ops with
+    | nil => intro w h; exact h
+    | cons o os ih => intro w h; exact ih _ (acc_step w o h)
+  exact this _ ⟨by simp [W.fresh], by simp [W.fresh]⟩
+
+/-- what a tick does in a state that satisfies the accounting -/
+theorem tick_ack_iff (w : W) (closed : Nat) (h : Acc w) :
+    (∃ id, (step w (.tick closed)).2 = .ack id) ↔
+      (w.exited = false ∧ w.shutting.isSome = true ∧ w.sessions ≤ closed) := by
+  obtain ⟨h1, _⟩ := h
+  simp only [step]
+  cases he : w.exited with
+  | true => simp
+  | false =>
+    cases hs : w.shutting with
+    | none => simp
+    | some id =>
+      simp only [Bool.false_eq_true, if_false, Option.isSome_some, true_and]
+      by_cases hc : w.slab - min closed w.sessions ≤ w.base
+      · simp only [hc, if_true]
+        constructor
+        · intro _; omega
+        · intro _; exact ⟨id, rfl⟩
+      · simp only [hc, if_false]
+        constructor
+        · intro ⟨_, h⟩; cases h
+        · intro h; exfalso; apply hc; omega
+
+/-- **Hand-over, then stop: the stop waits for the sessions and for nothing
+    else.** In any history of a worker — whatever listeners were added, removed
+    or handed back with `ReturnListenSockets` before or after the SoftStop — a
+    tick acknowledges the stop exactly when the worker is stopping and every
+    client session has ended on that tick; in particular never while a session
+    is left, and always once none is. -/
+theorem C10_handover_then_stop_waits_for_sessions (b : Nat) (ops : List Op) (closed : Nat) :
+    let w := run (W.fresh b) ops
+    (∃ id, (step w (.tick closed)).2 = .ack id) ↔
+      (w.exited = false ∧ w.shutting.isSome = true ∧ w.sessions ≤ closed) :=
+  tick_ack_iff _ closed (C10_accounting_invariant b ops)
+
+example :
+    let w := run (W.fresh 3) [.addListener, .addListener, .connect, .connect, .returnListeners, .softStop 9, .tick 1]
+    w.sessions = 1 ∧ w.exited = false ∧ (step w (.tick 1)).2 = .ack 9 ∧ (step w (.tick 0)).2 = .none := by
+  decide
+
 /-- the acknowledgement carries the id of the SoftStop being served, is written
     on the first tick at which the slab is back to its base, and ends the worker -/
 theorem C10_softstop_ack_when_drained (w : W) (id closed : Nat)
     (hs : w.shutting = some id) (he : w.exited = false) :
-    (w.slab - closed ≤ w.base →
+    (w.slab - min closed w.sessions ≤ w.base →
       (step w (.tick closed)).2 = .ack id ∧ (step w (.tick closed)).1.exited = true) ∧
-    (¬ w.slab - closed ≤ w.base →
+    (¬ w.slab - min closed w.sessions ≤ w.base →
       (step w (.tick closed)).2 = .none ∧ (step w (.tick closed)).1.exited = false ∧
       (step w (.tick closed)).1.shutting = some id) := by
   constructor <;> intro h <;> simp [step, hs, he, h]
@@ -233,6 +358,27 @@ theorem stopping_step (w : W) (op : Op) (h : w.exited = true ∨ w.shutting.isSo
       · simp_all
       · split <;> simp_all
   | connect => simp only [step]; split <;> simp_all
+  | addListener => simp only [step]; split <;> simp_all
+  | removeListener => simp only [step]; split <;> simp_all
+  | returnListeners => simp only [step]; split <;> simp_all
+
+theorem step_not_accepted (v : W) (o : Op) (h : v.exited = true ∨ v.shutting.isSome = true ∨ v.listening = false) :
+    (step v o).2 ≠ .accepted := by
+  cases o with
+  | softStop i => simp only [step]; split <;> simp
+  | tick c =>
+    simp only [step]; split
+    · simp
+    · split
+      · simp
+      · split <;> simp
+  | connect =>
+    simp only [step]
+    have : (v.exited = true ∨ v.shutting.isSome = true ∨ v.listening = false) := h
+    simp [this]
+  | addListener => simp only [step]; split <;> simp
+  | removeListener => simp only [step]; split <;> simp
+  | returnListeners => simp only [step]; split <;> simp
 
 /-- **No new connection after the stop.** After a SoftStop request has been
     read, no later connection attempt is accepted — before the acknowledgement
@@ -247,21 +393,42 @@ theorem C10_softstop_no_accept_after_stop (w : W) (id : Nat) (post : List Op) :
   | cons o os ih =>
     simp only [outs, List.mem_cons, not_or]
     refine ⟨?_, ih _ (stopping_step v o h0)⟩
-    cases o with
-    | softStop i => simp only [step]; split <;> simp
-    | tick c =>
-      simp only [step]; split
-      · simp
-      · split
-        · simp
-        · split <;> simp
-    | connect =>
-      simp only [step]
-      have : (v.exited = true ∨ v.shutting.isSome = true) := h0
-      simp [this]
+    have := step_not_accepted v o (by rcases h0 with h | h; exact Or.inl h; exact Or.inr (Or.inl h))
+    exact fun e => this e.symm
 
-example : (run { base := 2, slab := 5 } [.connect, .softStop 7, .tick 1, .connect, .tick 3]).acks = [7] := by
+/-- handed-back listeners stay handed back -/
+theorem returned_step (w : W) (op : Op) (h : w.listening = false) : (step w op).1.listening = false := by
+  cases op with
+  | softStop id => simp only [step]; split <;> simp_all
+  | tick closed =>
+    simp only [step]; split
+    · simp_all
+    · split
+      · simp_all
+      · split <;> simp_all
+  | connect => simp only [step]; split <;> simp_all
+  | addListener => simp only [step]; split <;> simp_all
+  | removeListener => simp only [step]; split <;> simp_all
+  | returnListeners => simp only [step]; split <;> simp_all
+
+/-- **No new connection after the hand-over.** Once the listen sockets were
+    returned, the old worker accepts nothing any more (the successor does). -/
+theorem C10_no_accept_after_handover (w : W) (post : List Op) (he : w.exited = false) :
+    Out.accepted ∉ outs (step w .returnListeners).1 post := by
+  have h0 : (step w .returnListeners).1.listening = false := by simp [step, he]
+  generalize (step w .returnListeners).1 = v at h0
+  induction post generalizing v with
+  | nil => simp [outs]
+  | cons o os ih =>
+    simp only [outs, List.mem_cons, not_or]
+    refine ⟨?_, ih _ (returned_step v o h0)⟩
+    have := step_not_accepted v o (Or.inr (Or.inr h0))
+    exact fun e => this e.symm
+
+example : (run { base := 2, slab := 5, sessions := 3 } [.connect, .softStop 7, .tick 1, .connect, .tick 3]).acks = [7] := by
   decide
+
+example : outs (W.fresh 1) [.connect, .returnListeners, .connect] = [.accepted, .none, .refused] := by decide
 
 end SoftStop
 
